@@ -39,7 +39,7 @@ type policyCase struct {
 	status       int
 	date         int64
 	lifetime     int64
-	tOffsetNanos int64 // verification time = date + offset
+	tOffsetNanos int64  // verification time = date + offset
 	integrity    string // "" = the right one for the version
 	desc         string
 }
